@@ -20,6 +20,7 @@ EXPLANATION = (
     'watchdog asks for really ends in a new connection attempt (C07.R2 + C07.R3 re-evaluated).'
     ' Added later: R3 also demands that the monitoring loop waits (event, sleep, queue) only inside the armed asyncio.timeout - after a handled timeout the deadline is armed again at once.'
     ' Rounds 7-8: R2 also: the interval sleep and the send are handed to one awaited gather (requests are `interval` apart whatever a send takes); R4: more stand-in messages for the matcher (a zero-length echo has the same id); R5 also: only shutdown() stops the heartbeat manager and only _message_received starts it (who-may-call).'
+    ' Rounds 9-10: R4 also: the response event is created per instance in __init__ (no shared class-level object); R9 (C05.R6 re-used): the console-version decoder refuses no version text.'
 )
 ASSUMPTIONS = ["asyncio.timeout(delay)/Timeout.reschedule(when) semantics as documented (delay None = no deadline)", "loop.time() is the clock asyncio.timeout uses"]
 FLOORS = {"C08.R1": 5, "C08.R2": 4, "C08.R3": 7, "C08.R4": 5, "C08.R5": 5, "C08.R6": 1, "C08.R7": 1, "C08.R8": 1, "C08.R9": 1}
